@@ -367,6 +367,8 @@ class Gen:
                     if m is not None and isinstance(m, models.RawTreeModel) and not isinstance(m, I.SPECIAL_EXPR):
                         for path, node in enumerate_nodes(m, []):
                             out.append(({'r': ['pool', k], 'p': path}, node))
+                    elif m is not None and isinstance(m, models.RawTokenModel):
+                        out.append(({'r': ['pool', k], 'p': []}, m))     # a free token: editable while detached
             self._nodes = out
         return self._nodes
 
@@ -578,9 +580,13 @@ class Gen:
         n = len(w)
         dom, _ = self.item_domain(owner, m)
         kind = rng.choice(['append', 'insert', 'insert', 'pop', 'pop', 'setitem', 'setitem', 'setslice', 'setslice',
-                           'delitem', 'delslice', 'extend', 'clear', 'remove', 'discard', 'getitem'])
+                           'delitem', 'delslice', 'extend', 'clear', 'remove', 'discard', 'getitem', 'reverse', 'iadd', 'index_count'])
         if self.safe and type(owner) is models.Custom and kind in ('pop', 'delitem', 'delslice', 'clear', 'remove', 'discard'):
             kind = 'append'
+        if kind == 'reverse' and m.kind == 'custom_view':
+            # the inherited MutableSequence.reverse swaps pairwise by assignment; on a list mixing simplified
+            # values and preserved nodes it is not one of the operations the statements list (DESIGN 11.2)
+            kind = 'getitem'
         op: dict = {'op': 'seq', 'k': kind, 't': ref, 'm': m.name}
         if kind in ('append',):
             it = self.gen_item(owner, m)
@@ -618,7 +624,7 @@ class Gen:
             op['i'] = pick_index(rng, n)
         elif kind == 'delslice':
             op['sl'] = pick_slice(rng, n)
-        elif kind == 'extend':
+        elif kind in ('extend', 'iadd'):
             items = [self.gen_item(owner, m) for _ in range(rng.choice([0, 1, 2, 3]))]
             if any(i is None for i in items):
                 return None
@@ -636,6 +642,8 @@ class Gen:
                     op['val'] = enc('no-such-value')
             else:
                 op['idx_of'] = pick_index(rng, n) if n else 0
+        elif kind == 'index_count':
+            op['i'] = pick_index(rng, n, 0.7)
         elif kind == 'getitem':
             op['i'] = pick_index(rng, n, 0.4)
             if rng.random() < 0.5:
@@ -675,6 +683,8 @@ class Gen:
         if not ms:
             return None
         m = rng.choice(ms)
+        if isinstance(node, models.CostSpec) and rng.random() < 0.7:
+            m = rng.choice([x for x in ms if x.name in ('number_per', 'number_total', 'currency')] or ms)
         v = self.gen_value(node, m)
         if v is NotImplemented:
             return None
@@ -836,6 +846,32 @@ class Gen:
             return None
         ref, owner, m = self.rng.choice(ws)
         return {'op': 'handle', 't': {'r': ref['r'], 'p': ref['p'][:-1]}, 'm': m.name}
+
+    def gen_A(self) -> Optional[dict]:
+        """Arithmetic on a NumberExpr that lives in the document (in place) or plain (result pooled)."""
+        rng = self.rng
+        c = self.pick(lambda n: isinstance(n, models.NumberExpr))
+        if not c:
+            return None
+        r = rng.random()
+        if r < 0.4:
+            right: Any = {'int': rng.choice([1, 2, 3, 10, -4])}
+        elif r < 0.7:
+            right = {'dec': rng.choice(['0.5', '1.25', '-2', '100'])}
+        else:
+            right = {'expr': docgen.expr_text(rng)}
+        return {'op': 'arith', 't': c[0], 'o': rng.choice(['+', '-', '*', '/']), 'r': right,
+                'mode': rng.choice(['inplace', 'inplace', 'plain', 'reflected', 'neg'])}
+
+    def gen_Z(self) -> Optional[dict]:
+        """== between a node that was deleted from the document and a live one (C20 profile)."""
+        zs = getattr(self.s, 'zombies', [])
+        if not zs:
+            return None
+        c = self.pick(lambda n: isinstance(n, models.RawTreeModel))
+        if not c:
+            return None
+        return {'op': 'eq_zombie', 'z': self.rng.randrange(len(zs)), 't': c[0]}
 
     def gen_X(self) -> Optional[dict]:
         """Mutation through a retained (possibly stale) handle."""
